@@ -372,6 +372,33 @@ impl<'a> Ctx<'a> {
         format!("(mk_action (PTuple [{}]) ({}))", pats.join("; "), body)
     }
 
+    fn alt_items(&mut self, e: &Expr, out: &mut Vec<String>) {
+        let elems: Vec<&Expr> = match e {
+            Expr::Tuple(t) => t.elems.iter().collect(),
+            Expr::Paren(p) => vec![&*p.expr],
+            _ => {
+                out.push(self.unsupported(&format!("expected a tuple of parsers: {}", tokens_of(e))));
+                return;
+            }
+        };
+        for x in elems {
+            let mut inner = x;
+            while let Expr::Paren(p) = inner {
+                inner = &p.expr;
+            }
+            if let Expr::Call(c) = inner {
+                if let Expr::Path(p) = &*c.func {
+                    let segs = path_segs(&p.path);
+                    if c.args.len() == 1 && self.resolve_nom(&segs).as_deref() == Some("branch::alt") {
+                        self.alt_items(&c.args[0], out);
+                        continue;
+                    }
+                }
+            }
+            out.push(self.tr_g(x));
+        }
+    }
+
     fn tr_list(&mut self, e: &Expr) -> Vec<String> {
         match e {
             Expr::Tuple(t) => t.elems.iter().map(|x| self.tr_g(x)).collect(),
@@ -518,7 +545,10 @@ impl<'a> Ctx<'a> {
         }
         match (n, args.len()) {
             ("branch::alt", 1) => {
-                let l = self.tr_list(args[0]);
+                // an `alt` directly inside an `alt` is spliced in place (nom's tuples stop at 21 elements, so long
+                // alternations are nested; first success wins and the last error is reported either way)
+                let mut l = vec![];
+                self.alt_items(args[0], &mut l);
                 format!("(Alt [{}])", l.join(";\n      "))
             }
             ("sequence::tuple", 1) => {
@@ -682,7 +712,12 @@ impl<'a> Ctx<'a> {
                 };
                 format!("(mk_action (PVar \"x\") ({}))", body)
             }
-            Expr::Closure(c) if c.inputs.len() == 1 => {
+            Expr::Closure(c0) if c0.inputs.len() == 1 => {
+                // parameter names are normalised by position (canon.rs): a renamed parameter is the same action
+                let canon = crate::canon::canon_closure(c0);
+                let c = canon.as_ref().unwrap_or(c0);
+                let e_canon = Expr::Closure(c.clone());
+                let e = &e_canon;
                 let mut vars = vec![];
                 let pat = self.tr_pat(&c.inputs[0], &mut vars);
                 match pat {
